@@ -87,14 +87,25 @@ def same_entry(real, exp):
     return True
 
 
-def encode_entry(e):
+def encode_entry(e, embed_base=None):
+    """Reference encoding of a score entry. A bundle-shaped list inside a
+    message (completion message) travels as a blob whose timetag is the send
+    instant `embed_base` plus its own latency."""
     tt = int(e[0] * TWO32)
     elems = []
     for x in e[1:]:
         if isinstance(x[0], str):
-            elems.append(osc_ref.encode_message(x[0], x[1:]))
+            args = []
+            for a in x[1:]:
+                if isinstance(a, list):
+                    inner = resolve_nrt(embed_base[0], a[0], a[1:],
+                                        embed_base[1])
+                    args.append(encode_entry(inner, embed_base))
+                else:
+                    args.append(a)
+            elems.append(osc_ref.encode_message(x[0], args))
         else:
-            elems.append(encode_entry(x))
+            elems.append(encode_entry(x, embed_base))
     return osc_ref.encode_bundle(tt, elems)
 
 
@@ -132,14 +143,18 @@ def run_nrt(p, v):
     except prog_model.Ambiguous:
         raise Reject()
     out = prog.run_nrt(p)
-    exp = [(F(0), 0, [F(0), ['/g_new', 1, 0, 0]])]
+    exp = [(F(0), 0, [F(0), ['/g_new', 1, 0, 0]], None)]
     for i, b in enumerate(m.bundles):
-        e = resolve_nrt(b['time'], b['lat'], b['elems'], b['who'] is not None)
-        exp.append((e[0], i + 1, e))
+        elems = b['elems']
+        if b.get('embed') is not None:
+            elems = [elems[0] + [b['embed']]]
+        e = resolve_nrt(b['time'], b['lat'], elems, b['who'] is not None)
+        exp.append((e[0], i + 1, e, (b['time'], b['who'] is not None)))
     tend = m.last_event + F(p.get('tail', 0))
-    exp.append((tend, len(exp), [tend, ['/c_set', 0, 0]]))
+    exp.append((tend, len(exp), [tend, ['/c_set', 0, 0]], None))
     exp.sort(key=lambda x: (x[0], x[1]))
-    exp = [e for _, _, e in exp]
+    bases = [x[3] for x in exp]
+    exp = [e for _, _, e, _ in exp]
     real = out['score']
     # refused sends
     rr = [x for x in out['trace'] if x['kind'] == 'refused']
@@ -171,7 +186,7 @@ def run_nrt(p, v):
         v.fail('raw_score_framing', str(e))
         packets = None
     if packets is not None and not v.items:
-        want = [encode_entry(e) for e in exp]
+        want = [encode_entry(e, b) for e, b in zip(exp, bases)]
         if packets != want:
             k = next((i for i, (a, b) in enumerate(zip(packets, want))
                       if a != b), min(len(packets), len(want)))
@@ -185,9 +200,11 @@ def run_nrt(p, v):
 
 def decode_times(pkt, osc_offset, t0):
     """Bundle -> nested [secs or 'imm', elems...] with times relative to the
-    program start."""
+    program start; blobs inside messages are decoded as embedded bundles."""
     if isinstance(pkt, osc_ref.Message):
-        return [pkt.address] + list(pkt.args)
+        return [pkt.address] + [
+            decode_times(osc_ref.decode_packet(a), osc_offset, t0)
+            if isinstance(a, bytes) else a for a in pkt.args]
     if pkt.timetag == osc_ref.IMMEDIATELY:
         t = 'imm'
     else:
@@ -208,7 +225,10 @@ def expected_rt(now, lat, elems):
 
 def same_rt(a, b):
     if isinstance(b[0], str):
-        return list(a) == list(b)
+        if len(a) != len(b) or not isinstance(a[0], str):
+            return False
+        return all(same_rt(x, y) if isinstance(y, list) else x == y
+                   for x, y in zip(a, b))
     if isinstance(a[0], str) or len(a) != len(b):
         return False
     if b[0] == 'imm' or a[0] == 'imm':
@@ -244,13 +264,18 @@ def run_rt(case, v):
         exp = []
         for b in m.bundles:
             if b['msg']:
-                exp.append(list(b['elems'][0]))
+                e = list(b['elems'][0])
+                if b.get('embed') is not None:
+                    e.append(expected_rt(b['time'], b['embed'][0],
+                                         b['embed'][1:]))
+                exp.append(e)
             else:
                 exp.append(expected_rt(b['time'], b['lat'], b['elems']))
         # datagrams of different clocks interleave freely: compare as
         # multisets keyed by the (unique) tag carried in the first message
-        def key(x):
-            return repr(x[1]) if not isinstance(x[0], str) else repr(x)
+        def key(x):     # the unique tag of the (first) message
+            is_msg = isinstance(x[0], str) and x[0].startswith('/')
+            return x[1] if is_msg else x[1][1]
         got.sort(key=key)
         exp.sort(key=key)
         if len(got) != len(exp):
